@@ -137,7 +137,10 @@ fn print_tree(fs: &util::FileServerMock, top: &diagn::Message) -> Option<Vec<Str
 fn assign(msg: &diagn::Message, depth: usize, lines: &Vec<String>, cursor: &mut usize, out: &mut Vec<String>) {
     let want = format!("{}{}: {}", if depth > 0 { "+ " } else { "" }, label_of(msg.kind), msg.descr.split('\n').next().unwrap_or(""));
     let mut k = *cursor;
-    while k < lines.len() && lines[k].trim_start() != want.trim_end() && lines[k].trim_start() != want {
+    // (a nested message under a parent that printed no source header is not indented and has no " + " prefix)
+    let bare = want.strip_prefix("+ ").unwrap_or(&want).to_string();
+    while k < lines.len() && lines[k].trim_start() != want.trim_end() && lines[k].trim_start() != want
+        && lines[k].trim_start() != bare && lines[k].trim_start() != bare.trim_end() {
         k += 1;
     }
     let mut info = "-,-,-,-".to_string();
